@@ -9,6 +9,9 @@ Proof. reflexivity. Qed.
 Lemma data_prefix_src_ok : Consts.deliver_data_prefix = [35; 68; 65; 84; 65; 58] /\
                            Consts.data_v2_base64_prefix = Consts.deliver_data_prefix. (* "#DATA:" *)
 Proof. split; reflexivity. Qed.
+(* the pieces pipelineSendData writes itself end with the NEGOTIATED newline, not a literal *)
+Lemma data_v2_piece_terminator_src_ok : Consts.data_v2_piece_terminator = None.
+Proof. reflexivity. Qed.
 Lemma data_v2_binary_format_src_ok : Consts.data_v2_binary_format = Consts.deliver_data_prefix ++ [37; 100; 37; 115]. (* "#DATA:%d%s" *)
 Proof. reflexivity. Qed.
 Lemma data_v1_binary_format_src_ok : Consts.data_v1_binary_format = Consts.deliver_data_prefix ++ [37; 100; 10]. (* "#DATA:%d\n" *)
